@@ -607,6 +607,13 @@ def gen_file(tape, max_records, max_refs=4, max_lseq=40, max_ops=12, tag="", all
         names.append("c")
     records = []
     while len(records) < max_records and tape.more(tag + "records.more", rec_more[0], rec_more[1]):
+        if records and tape.feature("bam_clone_record") and tape.boolean(tag + "r.clone", 1, 4):
+            # a record of exactly the size of its predecessor (same name / CIGAR / sequence / tags, other position)
+            r = dict(records[-1])
+            if r["refid"] >= 0:
+                r["pos"] = r["pos"] + 1 + tape.draw(50, tag + "r.clone.shift")
+            records.append(r)
+            continue
         records.append(gen_record(tape, len(names), max_lseq, max_ops, tag + "r.", allow_unplaced=allow_unplaced))
     refs = []
     for i, nm in enumerate(names):
